@@ -930,8 +930,9 @@ class list_t(object):
                 return expr(ExprArraySumModel(self.get_model()))
             else:
                 ret = 0
-                for f in self.get_model().field_l:
-                    ret += int(f.get_val())
+                model = self.get_model()
+                for i in range(self.size):
+                    ret += int(model.field_l[i].get_val())
                 return ret
         else:
             raise Exception("Composite arrays do not have a sum")
@@ -943,8 +944,9 @@ class list_t(object):
                 return expr(ExprArrayProductModel(self.get_model()))
             else:
                 ret = 0 if self.size == 0 else 1
-                for f in self.get_model().field_l:
-                    ret *= int(f.get_val())
+                model = self.get_model()
+                for i in range(self.size):
+                    ret *= int(model.field_l[i].get_val())
                 return ret
         else:
             raise Exception("Composite arrays do not have a product")
@@ -999,15 +1001,15 @@ class list_t(object):
             if self.is_enum:
                 ei : EnumInfo = self.t.enum_i
                 val = ei.e2v(lhs)
-                for f in model.field_l:
-                    if int(f.get_val()) == val:
+                for i in range(self.size):
+                    if int(model.field_l[i].get_val()) == val:
                         return True
             elif self.is_scalar:
-                for f in model.field_l:
-                    if int(f.get_val()) == int(lhs):
+                for i in range(self.size):
+                    if int(model.field_l[i].get_val()) == int(lhs):
                         return True
             else:
-                return lhs in self.backing_arr
+                return lhs in self.backing_arr[:self.size]
             return False
 
     def __iter__(self):
